@@ -31,3 +31,51 @@ def parser_selftest(prog, rep, limit=None):
             raise Inconclusive("selftest: interpreter and real parser disagree on core/data/tests/%s/input.rs" % name)
         n += 1
     return n
+
+
+CONFIGS = {
+    "swift": [{}, {"prefix": "OP"}],
+    "kotlin": [{}, {"prefix": "OP", "package": "com.agilebits.onepassword"}],
+    "typescript": [{}, {"type_mappings": {"Url": "string", "DateTime": "Date"}}],
+    "go": [{}, {"uppercase_acronyms": ["ID", "URL"], "type_mappings": {"Url": "string"}}],
+    "scala": [{}],
+    "python": [{}],
+}
+
+
+def backend_selftest(prog, rep, langs=None, limit=None, configs=True):
+    """generate_types for every repo test input x language (x a few configurations): byte equality with the real library"""
+    from . import bharness
+    n = 0
+    files = sorted(glob.glob(os.path.join(REPO, "core/data/tests/*/input.rs")))
+    if limit:
+        files = files[:limit]
+    for d in files:
+        src = open(d).read()
+        name = d.split("/")[-2]
+        for lang in (langs or bharness.LANGS):
+            for cfg in (CONFIGS[lang] if configs else CONFIGS[lang][:1]):
+                full = dict(bharness.DEFAULT_CFG.get(lang, {}))
+                full.update(cfg)
+                real = rep.ask({"op": "generate", "lang": lang, "files": [{"source": src}], "config": full})
+                if "out" not in real:
+                    continue   # the real library rejects / panics on this input for this language: nothing to compare
+                real = real["out"].get("", "")
+                I = new_interp(prog)
+                try:
+                    f = synast.parse_source(prog, src)
+                    r = pharness.run_visitor(I, f)
+                    if r.variant == 0:
+                        mine = ""
+                    else:
+                        pd = bharness.reconcile_single(I, r.fields[0])
+                        ok, w, _ = bharness.generate(I, lang, pd, cfg)
+                        mine = bharness.concrete_text(w) if ok else "<io error>"
+                except Inconclusive:
+                    raise
+                except Exception as e:  # noqa
+                    raise Inconclusive("selftest: interpreter failed on %s/%s %s: %s: %s" % (name, lang, cfg, type(e).__name__, str(e)[:300]))
+                if mine != real:
+                    raise Inconclusive("selftest: interpreter and real %s back end disagree on core/data/tests/%s/input.rs (config %s)" % (lang, name, cfg))
+                n += 1
+    return n
